@@ -77,7 +77,7 @@ def plan(tier, d0=None, dseed=None):
 
 
 def run_generic(pid, tier, seed, mon_factory, required_witness, rule, assumptions=(), d0=None, dseed=None,
-                extra_alph=None, extra_plan=(), heap=True, heap_ns=None, heap_variants=("A", "B", "C")):
+                extra_alph=None, extra_plan=(), heap=True, heap_ns=None, heap_variants=("A", "B", "C", "D"), layouts=False):
     res = common.Result(pid, tier, seed)
     alph = dict(ALPH)
     if extra_alph:
@@ -95,6 +95,8 @@ def run_generic(pid, tier, seed, mon_factory, required_witness, rule, assumption
     if heap:
         from .. import heap_stress
         heap_stress.run(res, mon_factory, tier, seed, ns=heap_ns, variants=heap_variants)
+        if layouts:
+            heap_stress.run_layouts(res, mon_factory, tier, seed)
     res.assumptions = list(assumptions) + [
         "operations are drawn from the stated finite alphabets; histories longer than the stated depth are not explored",
         "the market is driven through the same private interface the runner uses (_add_order, _cancel_order, _execution, _update_time, _is_running)",
@@ -103,7 +105,7 @@ def run_generic(pid, tier, seed, mon_factory, required_witness, rule, assumption
 
 
 def replay_generic(payload, mon_factory):
-    if payload.get("engine") == "F" and payload.get("grid") == "deep_one_sided_books":
+    if payload.get("engine") == "F" and payload.get("grid") in ("deep_one_sided_books", "heap_layouts"):
         from .. import heap_stress
         v = heap_stress.replay(payload, mon_factory)
         if v is None:
